@@ -21,13 +21,19 @@ impl Prop for C07 {
     const LEVEL: &'static str = "exploration";
     const STALL_SECS: u64 = 60;
     fn count(tier: Tier) -> u64 {
-        match tier {
-            Tier::Quick => 250_000,
-            Tier::Thorough => 15_000_000,
-        }
+        sweep_len(tier)
+            + match tier {
+                Tier::Quick => 250_000,
+                Tier::Thorough => 15_000_000,
+            }
     }
-    fn gen(seed: u64, _idx: u64, _tier: Tier) -> CorruptCase {
-        gen_case(seed)
+    fn gen(seed: u64, idx: u64, tier: Tier) -> CorruptCase {
+        // indices below sweep_len: systematic single-field enumeration; above: seeded campaign
+        if idx < sweep_len(tier) {
+            sweep_case(idx)
+        } else {
+            gen_case(seed)
+        }
     }
     fn eval(case: &CorruptCase, st: &mut Stats) -> Vec<Violation> {
         let run = run_case(case, SessionCfg::standard(), st);
@@ -71,7 +77,7 @@ impl Prop for C07 {
         shrink_case(case)
     }
     fn rule() -> String {
-        "same storage-fault campaign as C06 (own case stream), stream in full-transfer mode so stream calls = library calls; per API call: stream calls <= 10000 + 256n and bytes moved <= 1 MiB + 256n (n = image length), accessors make no stream call; a call taking > 2 s on an image <= 1 MiB in three executions is a CPU stall; a call that never returns is caught by the supervisor heartbeat; distinct_nontrivial = distinct (fault kind, box path:field, outcome class) triples".into()
+        "(systematic part) every located field of a fixed list of 17 seed images x 13 boundary values, one substitution per run (thorough: all 130 364 (image, field, value) triples; quick: the first 50 000); (seeded part) same storage-fault campaign as C06 (own case stream), stream in full-transfer mode so stream calls = library calls; per API call: stream calls <= 10000 + 256n and bytes moved <= 1 MiB + 256n (n = image length), accessors make no stream call; a call taking > 2 s on an image <= 1 MiB in three executions is a CPU stall; a call that never returns is caught by the supervisor heartbeat; distinct_nontrivial = distinct (fault kind, box path:field, outcome class) triples".into()
     }
     fn assumptions() -> Vec<String> {
         vec![
